@@ -9,11 +9,14 @@ mkdir -p /verif/target
 exec 8>/verif/target/.repo.lock; flock -x 8; export VERIF_LOCK_HELD=1
 cd /repo || exit 2
 [ -z "$(git status --porcelain -- src)" ] || { echo "repo dirty"; exit 2; }
-git apply "$P" || { echo "patch does not apply"; exit 2; }
+if ! git apply "$P" 2>/dev/null; then
+  git reset -q --hard HEAD
+  patch -p1 -F 3 -s --no-backup-if-mismatch < "$P" || { git reset -q --hard HEAD; git clean -fdq src; echo "$NAME: patch does not apply"; exit 2; }
+fi
 for c in "$@"; do
   out=$(cd /verif && ./check "$c" "${TIER:-quick}" 2>&1); rc=$?
   nv=$(echo "$out" | grep -c "^VIOLATION")
   first=$(echo "$out" | grep -E "^\s+\[(un)?checked\]" | head -1 | cut -c1-240)
   echo "$NAME vs $c: exit=$rc VIOLATION lines=$nv :: $first"
 done
-git -C /repo checkout -- .
+git -C /repo reset -q --hard HEAD; git -C /repo clean -fdq src
